@@ -162,7 +162,7 @@ void family( const mc::Args& a, mc::Report& rep, const mc::ReplayFile* rf, int& 
     for ( int k = 0; k != 2; ++k ) for ( int i = 0; i != total; ++i ) all.push_back( pop{ k, i } );
     std::vector< std::vector< pop > > prefills{ {} };
     for ( auto& p : all ) prefills.push_back( { p } );
-    if ( a.thorough() || total <= 1 ) for ( std::size_t i = 0; i != all.size(); ++i ) for ( std::size_t j = i + 1; j != all.size(); ++j ) prefills.push_back( { all[ i ], all[ j ] } );
+    if ( ( a.thorough() && total <= 2 ) || total <= 1 ) for ( std::size_t i = 0; i != all.size(); ++i ) for ( std::size_t j = i + 1; j != all.size(); ++j ) prefills.push_back( { all[ i ], all[ j ] } );
     for ( int mode = 0; mode != 2; ++mode )          // 0: producer interrupts dequeue, 1: dequeue interrupts producer
         for ( auto& pre : prefills )
             for ( auto& pr : all )
@@ -217,8 +217,8 @@ int main( int argc, char** argv )
     sigaction( SIGTRAP, &sa, nullptr );
     mc::ReplayFile rf; const mc::ReplayFile* prf = nullptr; int rc = 0;
     if ( !a.replay.empty() ) { rf = mc::read_replay( a.replay ); prf = &rf; }
-    family< 1 >( a, rep, prf, rc ); family< 2 >( a, rep, prf, rc ); family< 1, 1 >( a, rep, prf, rc ); family< 1, 2 >( a, rep, prf, rc );
-    if ( a.thorough() ) { family< 2, 1 >( a, rep, prf, rc ); family< 3 >( a, rep, prf, rc ); family< 4 >( a, rep, prf, rc ); family< 5 >( a, rep, prf, rc ); family< 1, 1, 1 >( a, rep, prf, rc ); family< 2, 2 >( a, rep, prf, rc ); }
+    family< 1 >( a, rep, prf, rc ); family< 2 >( a, rep, prf, rc ); family< 1, 1 >( a, rep, prf, rc );
+    if ( a.thorough() ) { family< 1, 2 >( a, rep, prf, rc ); family< 2, 1 >( a, rep, prf, rc ); family< 3 >( a, rep, prf, rc ); family< 1, 1, 1 >( a, rep, prf, rc ); }
     if ( prf ) return rc;
     rep.notes[ "bound" ] = "every instruction boundary of one operation of the interrupted context x one complete operation of the interrupting context, both nestings, sequential prefixes of <=1 (quick, <=2 for up to two characteristics) / <=2 (thorough) requests";
     rep.notes[ "scope" ] = "granularity = the instructions the host compiler generates with -O0 for x86-64; a single x86 read-modify-write instruction is not split";
